@@ -180,6 +180,54 @@ pub fn check_history(a_old: &[u8], a_new: &[u8], b_old: &[u8], b_new: &[u8]) -> 
     Ok(fp.0)
 }
 
+// ---- call histories through the text API, with the input buffers REUSED between the calls -----
+// (a cache keyed by address/length, or scratch state kept between calls, shows up here)
+
+fn text_api_observation(old: &str, new: &str) -> (Vec<DiffOp>, String, Vec<String>, Vec<String>) {
+    let d = TextDiff::from_lines(old, new);
+    let ops = d.ops().to_vec();
+    let udiff = d.unified_diff().context_radius(1).to_string();
+    let inline: Vec<String> = d
+        .ops()
+        .iter()
+        .flat_map(|op| d.iter_inline_changes_deadline(op, None))
+        .map(|c| format!("{:?}{:?}{:?}{:?}", c.tag(), c.old_index(), c.new_index(), c.values()))
+        .collect();
+    let words: Vec<&str> = old.split_whitespace().collect();
+    let close: Vec<String> = similar::get_close_matches(new.trim(), &words, 2, 0.3)
+        .into_iter()
+        .map(|s| s.to_string())
+        .collect();
+    (ops, udiff, inline, close)
+}
+
+pub fn check_text_history(a_old: &str, a_new: &str, b_old: &str, b_new: &str) -> Result<u64, String> {
+    let alone = subject(|| text_api_observation(b_old, b_new)).map_err(|p| format!("panic: {}", p))?;
+    let after = subject(|| {
+        // same two allocations hold first A's then B's text
+        let mut bo = String::with_capacity(64);
+        let mut bn = String::with_capacity(64);
+        bo.push_str(a_old);
+        bn.push_str(a_new);
+        let (p1, p2) = (bo.as_ptr(), bn.as_ptr());
+        let _ = text_api_observation(&bo, &bn);
+        bo.clear();
+        bn.clear();
+        bo.push_str(b_old);
+        bn.push_str(b_new);
+        debug_assert!(bo.as_ptr() == p1 && bn.as_ptr() == p2);
+        text_api_observation(&bo, &bn)
+    })
+    .map_err(|p| format!("panic: {}", p))?;
+    if after != alone {
+        return Err(format!(
+            "text API on {:?}/{:?} gives {:?} on its own, but {:?} after the same calls on {:?}/{:?} held in the same buffers",
+            b_old, b_new, alone, after, a_old, a_new
+        ));
+    }
+    Ok(ops_fp(&alone.0) ^ alone.1.len() as u64)
+}
+
 // ---- str vs bytes -------------------------------------------------------------------------
 
 pub fn check_str_bytes(old: &str, new: &str) -> Result<(bool, u64, u64), String> {
@@ -319,7 +367,7 @@ fn source_scan() -> Vec<String> {
 pub fn run(cfg: &RunCfg) -> CheckReport {
     let mut rep = CheckReport::new(
         "exploration",
-        "part 'seeds': every pair of the listed scopes x S hasher seeds (seam H3: Patience ops, the > 100-token text-diff path, IdentifyDistinct ids) x EVERY permutation of the uniqueness map's iteration order when <= 6 items are unique (rotations x reversal above); non-trivial: >= 2 unique items. part 'relabel': every pair x 3 algorithms x 7 order-preserving injective relabellings into other types/values/hashes plus one relabelling of old and new into two different element types (new: PartialEq<old>) that hash equal items differently. part 'history': every ordered pair of inputs (A,B) from a small scope x 3x3 algorithms: B after A on one thread vs B alone, plus repeated call. part 'str-bytes': every text pair of the C04 'valid' space, lines/words/chars x 3 algorithms, str ops vs [u8] ops. Supplementary (free-running, not exhaustive, labelled): 16 OS threads with real random hasher seeds against the armed reference. Cases distinct by construction within a part.",
+        "part 'seeds': every pair of the listed scopes x S hasher seeds (seam H3: Patience ops, the > 100-token text-diff path, IdentifyDistinct ids) x EVERY permutation of the uniqueness map's iteration order when <= 6 items are unique (rotations x reversal above); non-trivial: >= 2 unique items. part 'relabel': every pair x 3 algorithms x 7 order-preserving injective relabellings into other types/values/hashes plus one relabelling of old and new into two different element types (new: PartialEq<old>) that hash equal items differently. part 'history': every ordered pair of inputs (A,B) from a small scope x 3x3 algorithms: B after A on one thread vs B alone, plus repeated call. part 'history-text': the same through the text API (line diff, unified diff, inline changes, get_close_matches) with B's texts written into the very buffers that held A's texts. part 'str-bytes': every text pair of the C04 'valid' space, lines/words/chars x 3 algorithms, str ops vs [u8] ops. Supplementary (free-running, not exhaustive, labelled): 16 OS threads with real random hasher seeds against the armed reference. Cases distinct by construction within a part.",
     );
     rep.assume("no shared mutable state / synchronisation in the crate (source scan reported under 'shared_state_scan'; a non-empty scan is a WARNING, not a verdict): thread interleavings cannot influence a result, so 'schedules' reduces to (hasher seed, iteration order, call history)");
     rep.assume("H3 seams cover every HashMap built on the diff path (unique(), IdentifyDistinct)");
@@ -414,6 +462,41 @@ pub fn run(cfg: &RunCfg) -> CheckReport {
         return rep;
     }
 
+    // histories through the text API with reused buffers
+    let hts = TextSpace::new(&[b"a", b"b", b"\n", b" "], cfg.tier.pick(2, 3));
+    let mut htp: Vec<(String, String)> = vec![];
+    for a in &hts.texts {
+        for b in &hts.texts {
+            htp.push((String::from_utf8(a.clone()).unwrap(), String::from_utf8(b.clone()).unwrap()));
+        }
+    }
+    let ex = explore(cfg, htp.len(), |shard, acc| {
+        let (ao, an) = &htp[shard];
+        for (bo, bn) in &htp {
+            match check_text_history(ao, an, bo, bn) {
+                Ok(fp) => {
+                    if acc.want_sample() {
+                        acc.sample(json!({"first": [ao, an], "then": [bo, bn]}));
+                    }
+                    acc.ok(ao != an && bo != bn, 8, fp);
+                }
+                Err(e) => acc.violation(|| {
+                    (
+                        json!({"part": "history-text", "a_old_text": ao, "a_new_text": an, "old_text": bo, "new_text": bn}),
+                        e,
+                    )
+                }),
+            }
+            if acc.stop() {
+                return;
+            }
+        }
+    });
+    rep.part("history-text", json!({"texts": hts.describe(), "api": "TextDiff::from_lines ops + unified diff + inline changes + get_close_matches, input buffers reused between the two calls"}), ex);
+    if rep.has_violation() {
+        return rep;
+    }
+
     let ts = TextSpace::new(&LETTERS_VALID[..cfg.tier.pick(7, 9)], cfg.tier.pick(3, 4));
     let ex = explore(cfg, ts.texts.len(), |shard, acc| {
         let old = std::str::from_utf8(&ts.texts[shard]).unwrap();
@@ -474,6 +557,13 @@ pub fn replay(case: &Value) -> Result<String, String> {
             let old = parse_seq(case, "old")?;
             let new = parse_seq(case, "new")?;
             check_history(&ao, &an, &old, &new).map(|f| format!("holds; fingerprint {:x}", f))
+        }
+        Some("history-text") => {
+            let ao = parse_str(case, "a_old_text")?;
+            let an = parse_str(case, "a_new_text")?;
+            let old = parse_str(case, "old_text")?;
+            let new = parse_str(case, "new_text")?;
+            check_text_history(ao, an, old, new).map(|f| format!("holds; fingerprint {:x}", f))
         }
         Some("str-bytes") => {
             let old = parse_str(case, "old_text")?;
